@@ -24,11 +24,11 @@ Definition is_mk (k : tokkind) : bool := match k with TkMathInline | TkMathDispl
 (** the collectors of the grammar: no node-list stop condition, the stop
     token's whitespace is included, every child is parsed in the collector's
     own state, the stop condition is none / a closing brace / a closing math
-    delimiter (then the state is in math mode) *)
+    delimiter (then the state is in math mode) / the end of an environment *)
 Definition opts_ok (ps : pstate) (o : genopts) : Prop :=
   g_nl o = NLNone /\ g_incl_pre o = true /\ (forall t, child_state o ps t = ps) /\
   match g_stop o with
-  | SNone | SBraceClose _ => True
+  | SNone | SBraceClose _ | SEndEnv _ => True
   | SMathClose k _ => is_mk k = true /\ f_in_math (ps_f ps) = true
   | _ => False
   end.
@@ -107,6 +107,7 @@ Section Rules.
       + destruct k'; try discriminate; reflexivity.
       + destruct k'; try discriminate; reflexivity.
       + congruence.
+    - cbn. destruct K as [->|[->|[->|[->|[K _]]]]]; try reflexivity. destruct k; try discriminate; reflexivity.
   Qed.
 
   Lemma rule_group n ps o st pos ws nd p' r :
